@@ -951,6 +951,30 @@ fn main() {
             }
         }
     };
+    // Behavioural probe (replaces a source anchor): which range test does the cursor under test
+    // implement for captures?  A zero-width root at the start of the (default) range is reported by
+    // captures() since commit 5d2fccd and was dropped before.  The driver selects the matching port.
+    {
+        let probe = (|| -> Option<bool> {
+            let b = zoo::load("lst").ok()?;
+            let mut parser = Parser::new();
+            parser.set_language(&b.language).ok()?;
+            let tree = parser.parse(b"", None)?;
+            let q = Query::new(&b.language, "((program) @r)").ok()?;
+            let mut cur = QueryCursor::new();
+            let mut n = 0;
+            let mut it = cur.captures(&q, tree.root_node(), &b""[..]);
+            while let Some(_) = it.next() {
+                n += 1;
+            }
+            Some(n >= 1)
+        })();
+        match probe {
+            Some(true) => writeln!(out, "probe node_precedes_range new").unwrap(),
+            Some(false) => writeln!(out, "probe node_precedes_range old").unwrap(),
+            None => writeln!(out, "probe node_precedes_range unknown").unwrap(),
+        }
+    }
     if args.get(2).map(|s| s == "--spec").unwrap_or(false) {
         let specs = std::fs::read_to_string(&args[3]).unwrap();
         run_specs(&mut out, &specs, "r", &mut st);
